@@ -297,6 +297,7 @@ func (w *World) exec(fr *frame, mem *Memory, b, pred *ssa.BasicBlock, skipPhis b
 }
 
 func (w *World) step(fr *frame, mem *Memory, instr ssa.Instruction) {
+	w.cur = instr
 	switch in := instr.(type) {
 	case *ssa.DebugRef:
 	case *ssa.Alloc:
